@@ -177,7 +177,9 @@ def desc_of(eng, elems, vers):
                 'svs': [
                     {
                         'name': sv['name'],
-                        'ver': ver[base + (sv['name'],)],
+                        # a state vector that declares no values is not a versioned element (nothing
+                        # can persist its version): it keeps the version the engine record gives it
+                        'ver': ver.get(base + (sv['name'],), list(sv['ver'])),
                         'vals': [{'name': v['name'], 'ver': ver[base + (sv['name'], v['name'])]} for v in sv['vals']],
                     }
                     for sv in a['svs']
@@ -389,6 +391,31 @@ def install_mutant(name):
             return a, s, {}
 
         dawgie.pl.version.current = current
+    elif name == 'current_reports_empty_sv':  # a state vector without values is reported as a current version
+        real = dawgie.pl.version.current
+
+        def current(factories):
+            a, s, v = real(factories)
+            s = dict(s)
+            for f in factories:
+                bot = f(dawgie.util.task_name(f))
+                for alg in bot.routines():
+                    for sv in alg.state_vectors():
+                        s.setdefault('.'.join([bot._name(), alg.name(), sv.name()]), sv.asstring())  # pylint: disable=protected-access
+            return a, s, v
+
+        dawgie.pl.version.current = current
+    elif name == 'versions_sv_gets_value':  # the state-vector lists also collect the versions of the values
+        real = dawgie.db.shelve.versions
+
+        def versions():
+            t, a, s, v = real()
+            s = {k: list(x) for k, x in s.items()}
+            for k, x in v.items():
+                s['.'.join(k.split('.')[:3])].extend(x)
+            return t, a, s, v
+
+        dawgie.db.shelve.versions = versions
     elif name == 'versions_forget_first':  # the database forgets the oldest recorded version
         real = dawgie.db.shelve.versions
 
